@@ -425,7 +425,7 @@ theorem crossAfter_spec {bits ab rb rs lsh : Nat} {H K : Int} {a : List Int} {q 
       CInv ab rb rs lsh H a K q aLimb true (crossAfter bits rb aLimb st).1 ∧
       (crossAfter bits rb aLimb st).1.aTakeLeft = st.aTakeLeft) ∧
     ((crossAfter bits rb aLimb st).2 = true →
-      CCont ab rb rs lsh H a K q aLimb (crossAfter bits rb aLimb st).1 ∨
+      (aLimb ≠ 0 ∧ CCont ab rb rs lsh H a K q aLimb (crossAfter bits rb aLimb st).1) ∨
       CFull rb rs K (crossAfter bits rb aLimb st).1 ∨
       (aLimb = 0 ∧ CFlush rb rs H K q (crossAfter bits rb aLimb st).1)) := by
   have hcnt : st.resAccLeft = 0 ∨ st.aTakeLeft = 0 := by simpa using h.cnt
@@ -576,7 +576,8 @@ theorem crossAfter_spec {bits ab rb rs lsh : Nat} {H K : Int} {a : List Int} {q 
         by_cases hc4 : st.aTakeLeft = 0
         · simp only [hc4, if_true]
           obtain ⟨hw, hcb⟩ := hcarry hc4
-          refine ⟨by simp, fun _ => Or.inl ⟨hlen, by simp only; omega, by simp only; omega, by simp only; omega,
+          have hne : aLimb ≠ 0 := fun h0 => hc2 ⟨h0, hc4⟩
+          refine ⟨by simp, fun _ => Or.inl ⟨hne, hlen, by simp only; omega, by simp only; omega, by simp only; omega,
             h.nd, h.ns, h.rc0, ?_, ?_, ?_, h.lims, ?_, ?_⟩⟩
           · simp only; rw [hw]; exact hcb
           · simp only; rw [hcur2, hral0]; simp
@@ -606,7 +607,8 @@ theorem crossAfter_spec {bits ab rb rs lsh : Nat} {H K : Int} {a : List Int} {q 
     have hr1 : 1 ≤ st.resAccLeft := by
       have : st.resAccLeft ≠ 0 := fun h0 => hc1 (Or.inl h0)
       omega
-    refine ⟨by simp, fun _ => Or.inl ⟨hlen, hlim, hr1, h.ral2, h.nd, h.ns, h.rc0, ?_, h.cur, h.zer, h.lims, ?_, ?_⟩⟩
+    have hne : aLimb ≠ 0 := fun h0 => hc1 (Or.inr h0)
+    refine ⟨by simp, fun _ => Or.inl ⟨hne, hlen, hlim, hr1, h.ral2, h.nd, h.ns, h.rc0, ?_, h.cur, h.zer, h.lims, ?_, ?_⟩⟩
     · simp only; rw [hw]; exact hcb
     · have := h.pos; unfold crossPos at this ⊢; simp only at this ⊢; omega
     · simp only; rw [hw]
